@@ -3,7 +3,7 @@
    operator expression; D A = den ... noforce A is the denotation of coq/model/Linop.v. *)
 From Coq Require Import ZArith List Bool.
 From SV Require Import lib.Scalar lib.BigSum lib.NdArray lib.Gather model.Rearrange model.Block model.Linop
-  proofs.LinopTheory proofs.LinopLeaves proofs.Rearrange proofs.LinopScale proofs.LinopLeavesA proofs.LinopStack proofs.LinopLeavesB proofs.LinopLeavesB2.
+  proofs.LinopTheory proofs.LinopLeaves proofs.Rearrange proofs.LinopScale proofs.LinopLeavesA proofs.LinopStack proofs.LinopLeavesB proofs.LinopLeavesB2 proofs.LinopAll.
 (* gen.Gen_linop_table: the _adjoint_linop / _normal_linop table GENERATED from linop.py, with lemmas gen_*_ok stating
    that it equals the hand model's adj / normal; importing it makes those lemmas part of this property's proof cone *)
 From SV Require gen.Gen_linop_table.
@@ -263,6 +263,167 @@ Proof. exact adj_correct_provenB. Qed.
 Print Assumptions C01_multiply_adjoint.
 Print Assumptions C01_adjoint_unconditional_fragment_B.
 Print Assumptions C01_adjoint_unconditional_fragment_B1.
+
+(* ---- every operator: all combinators over all modelled leaf classes; adjoint of the adjoint (proofs/LinopAll.v) ---- *)
+
+
+(* ---- proofs/LinopLeavesB.v, LinopLeavesB2.v : per-class predicate lemmas not yet in Prop_C01 ---- *)
+Theorem C01_proven_nodeB_adjoint :
+  forall (R : StarRing) arr scal orc L, proven_nodeB L = true -> wf L = true -> apair R arr scal orc L.
+Proof. exact proven_nodeB_apair. Qed.
+
+Theorem C01_proven_nodeB2_adjoint :
+  forall (R : StarRing) arr scal orc L, proven_nodeB2 L = true -> wf L = true -> apair R arr scal orc L.
+Proof. exact proven_nodeB2_apair. Qed.
+
+(* the engine behind Multiply / MatMul: <x (x) m, y> over the broadcast box = <x, Reshape (Sum_axes (y . conj m))> *)
+Theorem C01_broadcast_multiply_core :
+  forall (R : StarRing) ie me o di i (x y mf : list Z -> R), ax3 ie me o -> ie = repeat 1 di ++ i ->
+    let mask := bmask ie me o in
+    let os := mrem mask o in
+    sumB o (fun ov => mul (mul (x (skipn di (zip2 msk1 ie ov))) (mf ov)) (conj (y ov))) =
+    sumB i (fun iv => mul (x iv) (conj (sumB (mkeep mask o) (fun k =>
+        mul (y (mmerge mask (unravel os (ravel i iv)) k)) (conj (mf (mmerge mask (unravel os (ravel i iv)) k))))))).
+Proof. exact multiply_core. Qed.
+
+(* a gather along f and the scatter-add along the same f are adjoint (ArrayToBlocks / BlocksToArray) *)
+Theorem C01_gather_scatter_adjoint :
+  forall (R : StarRing) si so (f : list Z -> list Z) (u w : list Z -> R),
+    (forall o, inbox so o -> inbox si (f o)) ->
+    inner so (fun o => u (f o)) w =
+    inner si u (fun i => add zero (sumB so (fun o => if idx_eqb (f o) i then w o else zero))).
+Proof. exact gather_scatter_adjoint. Qed.
+
+(* ---- proofs/LinopAll.v ---- *)
+(* (1) shapes (adj L) = swapped shapes L for the leaf classes not covered by adj_shape_leaf *)
+Theorem C01_adjoint_shapes_transpose_axes :
+  forall i ax, transpose_axes_okb i ax = true ->
+    forall o i', shapes (Transpose i (Some ax)) = Ok (o, i') -> shapes (adj (Transpose i (Some ax))) = Ok (i', o).
+Proof. exact adj_shape_transpose. Qed.
+
+Theorem C01_adjoint_shapes_multiply :
+  forall i m c o i', shapes (Multiply i m c) = Ok (o, i') -> shapes (adj (Multiply i m c)) = Ok (i', o).
+Proof. exact adj_shape_multiply. Qed.
+
+Theorem C01_adjoint_shapes_matmul :
+  forall i a adjoint o i', shapes (MatMul i a adjoint) = Ok (o, i') -> shapes (adj (MatMul i a adjoint)) = Ok (i', o).
+Proof. exact adj_shape_matmul. Qed.
+
+Theorem C01_adjoint_shapes_right_matmul :
+  forall i a adjoint o i', shapes (RightMatMul i a adjoint) = Ok (o, i') -> shapes (adj (RightMatMul i a adjoint)) = Ok (i', o).
+Proof. exact adj_shape_right_matmul. Qed.
+
+(* the modelled adjoint of Multiply is literally Reshape . Sum . Multiply(conj), with fitting shapes *)
+Theorem C01_multiply_adjoint_form :
+  forall i m c, wf (Multiply i m c) = true -> exists o os axes,
+    shapes (Multiply i m c) = Ok (o, i) /\
+    adj (Multiply i m c) = Compose [Reshape i os; Sum o axes; Multiply o m (negb c)] /\
+    shapes (Reshape i os) = Ok (i, os) /\ prodZ i = prodZ os /\
+    shapes (Sum o axes) = Ok (os, o) /\ shapes (Multiply o m (negb c)) = Ok (o, o).
+Proof. exact multiply_adj_form. Qed.
+
+(* (2) one boolean predicate for every leaf class with a modelled denotation *)
+Theorem C01_proven_all_leaf :
+  forall (R : StarRing) arr scal orc L, proven_all L = true -> wf L = true ->
+    apair R arr scal orc L /\ adj_shape_ok L.
+Proof. exact proven_all_leaf_ok. Qed.
+
+Theorem C01_library_backed_disjoint : forall L, library_backed L = true -> proven_all L = false.
+Proof. exact library_backed_disjoint. Qed.
+
+(* THE theorem: every operator expression, through Conj, Add, Compose, Hstack, Vstack, Diag.  Leaves with a modelled
+   denotation pass a boolean check; library-backed leaves (FFT, IFFT, Interpolate, Gridding, Wavelet, InverseWavelet,
+   NUFFT, NUFFTAdjoint, Convolve...) bring their own adjoint identity. *)
+Theorem C01_adjoint_of_every_operator :
+  forall (R : StarRing) arr scal orc A,
+    wf A = true ->
+    nodes_ok' (fun L => (proven_all L = true /\ wf L = true) \/
+                        (library_backed L = true /\ leaf_ok R arr scal orc L)) A ->
+    (forall x y, inner (oshape_of A) (D R arr scal orc A x) y = inner (ishape_of A) x (D R arr scal orc (adj A) y)) /\
+    (forall o i, shapes A = Ok (o, i) -> shapes (adj A) = Ok (i, o)).
+Proof. exact adj_correct_all. Qed.
+Print Assumptions C01_adjoint_of_every_operator.
+
+(* the same, asking the library-backed leaves ONLY for <L x, y> = <x, L^H y> (their shapes swap for every parameter) *)
+Theorem C01_adjoint_of_every_operator' :
+  forall (R : StarRing) arr scal orc A,
+    wf A = true ->
+    nodes_ok' (fun L => (proven_all L = true /\ wf L = true) \/
+                        (library_backed L = true /\
+                         forall x y, inner (oshape_of L) (D R arr scal orc L x) y
+                                     = inner (ishape_of L) x (D R arr scal orc (adj L) y))) A ->
+    (forall x y, inner (oshape_of A) (D R arr scal orc A x) y = inner (ishape_of A) x (D R arr scal orc (adj A) y)) /\
+    (forall o i, shapes A = Ok (o, i) -> shapes (adj A) = Ok (i, o)).
+Proof. exact adj_correct_all'. Qed.
+Print Assumptions C01_adjoint_of_every_operator'.
+
+(* no library-backed leaf: NO hypothesis besides wf and the boolean check *)
+Theorem C01_adjoint_unconditional_all :
+  forall (R : StarRing) arr scal orc A,
+    wf A = true -> nodes_ok' (fun L => proven_all L = true /\ wf L = true) A ->
+    (forall x y, inner (oshape_of A) (D R arr scal orc A x) y = inner (ishape_of A) x (D R arr scal orc (adj A) y)) /\
+    (forall o i, shapes A = Ok (o, i) -> shapes (adj A) = Ok (i, o)).
+Proof. exact adj_correct_all_proven. Qed.
+Print Assumptions C01_adjoint_unconditional_all.
+
+(* (3) the adjoint of the adjoint acts like the original *)
+Theorem C01_adjoint_of_adjoint :
+  forall (R : StarRing) arr scal orc A,
+    wf A = true -> apair R arr scal orc A -> apair R arr scal orc (adj A) -> adj_shape_ok A ->
+    forall x o, inbox (oshape_of A) o -> D R arr scal orc (adj (adj A)) x o = D R arr scal orc A x o.
+Proof. exact adj_adj_acts. Qed.
+Print Assumptions C01_adjoint_of_adjoint.
+
+(* the proven fragment is closed under adj (Multiply -> Reshape . Sum . Multiply, Downsample <-> Upsample,
+   Hstack <-> Vstack, Transpose by p -> Transpose by argsort p, flattening of compositions, ...) *)
+Theorem C01_fragment_closed_under_adjoint :
+  forall A, wf A = true -> nodes_ok' (fun L => proven_all L = true /\ wf L = true) A ->
+    nodes_ok' (fun L => proven_all L = true /\ wf L = true) (adj A).
+Proof. exact proven_closed_adj. Qed.
+
+Theorem C01_adjoint_in_fragment :
+  forall (R : StarRing) arr scal orc A,
+    wf A = true -> nodes_ok' (fun L => proven_all L = true /\ wf L = true) A ->
+    wf (adj A) = true /\ nodes_ok' (fun L => proven_all L = true /\ wf L = true) (adj A) /\
+    oshape_of (adj A) = ishape_of A /\ ishape_of (adj A) = oshape_of A /\
+    apair R arr scal orc (adj A).
+Proof. exact adj_in_fragment. Qed.
+
+(* NO hypothesis: on the proven fragment A.H.H x = A x on the output box *)
+Theorem C01_adjoint_of_adjoint_unconditional :
+  forall (R : StarRing) arr scal orc A,
+    wf A = true -> nodes_ok' (fun L => proven_all L = true /\ wf L = true) A ->
+    forall x o, inbox (oshape_of A) o -> D R arr scal orc (adj (adj A)) x o = D R arr scal orc A x o.
+Proof. exact adj_adj_acts_proven. Qed.
+Print Assumptions C01_adjoint_of_adjoint_unconditional.
+
+(* with library-backed leaves: each such leaf and its adjoint leaf must satisfy their own adjoint identity *)
+Theorem C01_adjoint_of_adjoint_all :
+  forall (R : StarRing) arr scal orc A,
+    wf A = true ->
+    nodes_ok' (fun L => (proven_all L = true /\ wf L = true) \/
+                        (library_backed L = true /\ apair R arr scal orc L /\ apair R arr scal orc (adj L))) A ->
+    forall x o, inbox (oshape_of A) o -> D R arr scal orc (adj (adj A)) x o = D R arr scal orc A x o.
+Proof. exact adj_adj_acts_all. Qed.
+Print Assumptions C01_adjoint_of_adjoint_all.
+
+(* non-vacuity: a tree through Add, Conj, Compose, Hstack, Vstack, Diag, the scalar overload, over Identity, Transpose
+   (negative axes), Sum, Slice, Reshape, array Multiply (input broadcast), BlocksToArray, MatMul, ArrayToBlocks *)
+Example C01_all_example :
+  let H1 := Hstack [Identity [3; 2]; Transpose [2; 3] (Some [-1; 0])] None in
+  let V1 := Vstack [Sum [3; 2] [-1]; Slice [3; 2] [SSlice None None None; SIdx 0]] (Some 0) in
+  let Dg := Diag [Compose [V1; H1]; Compose [Reshape [6] [3; 2]; Multiply [2] (MArray (ARef 3 [3; 2])) false]] None None in
+  let A := Add [Dg; Conj (op_lscale 7 Dg);
+                Compose [BlocksToArray [12] [4] [2]; Transpose [4; 5] None; MatMul [2; 5] (ARef 1 [4; 2]) false;
+                         ArrayToBlocks [14] [5] [9]]] in
+  wf A = true /\ oshape_of A = [12] /\ ishape_of A = [14] /\
+  nodes_ok' (fun L => proven_all L = true /\ wf L = true) A /\ wf (adj A) = true.
+Proof. exact all_example. Qed.
+Print Assumptions C01_adjoint_of_every_operator.
+Print Assumptions C01_adjoint_of_every_operator.
+Print Assumptions C01_adjoint_unconditional_all.
+Print Assumptions C01_adjoint_of_adjoint_unconditional.
+Print Assumptions C01_adjoint_of_adjoint_all.
 
 (* non-vacuity: a depth-3 tree mixing Resize / Flip / Downsample / Conj / + / composition is well-formed *)
 Example C01_example_tree_wf :
